@@ -74,10 +74,19 @@ class FlushAbort(BaseException):
 
 
 class Holder(list):
-    """the third argument of every task: its repr() raises RecursionError (asynq's task descriptions must cope)"""
+    """the third argument of every task: its repr() raises - RecursionError for every other holder, a plain ValueError for
+    the rest (asynq's task descriptions must cope with arguments that cannot be printed)"""
+    count = 0
+
+    def __init__(self, *a):
+        list.__init__(self, *a)
+        Holder.count += 1
+        self.kind = Holder.count % 2
 
     def __repr__(self):
-        raise RecursionError("argument cannot be repr()ed")
+        if self.kind:
+            raise RecursionError("argument cannot be repr()ed")
+        raise ValueError("argument cannot be repr()ed")
 
 
 class AbortError(BaseException):
